@@ -31,7 +31,7 @@ struct AppWorld {
 	std::map<std::string,int> completed;     // request tag -> handler ran to its end
 	int untagged_entries = 0; int filters_installed = 0; std::string save_dir; int saved = 0;   // save_dir: where the echo application keeps odd-sized uploads with file::save_to()
 	std::string exception;                   // an exception that left a handler (must be handled by cppcms)
-	std::map<std::string,int> flush_issued,flush_done,flush_aborted; int async_flushes = 0, deferred_continuations = 0, uploads_aborted = 0;   // completion handlers of context::async_flush_output per request tag
+	std::map<std::string,int> flush_issued,flush_done,flush_aborted; int async_flushes = 0, deferred_continuations = 0, uploads_aborted = 0, full_disk_saves = 0; std::string full_disk_lie;   // completion handlers of context::async_flush_output per request tag
 };
 AppWorld *AW = nullptr;
 
@@ -60,6 +60,8 @@ public:
 			else {   // odd sizes: the application reads the upload with ordinary istream calls until they fail at its end, then keeps it with save_to(); what was saved is what gets reported
 				std::istream &in = f->data(); char b[333]; std::string seen; for(;;){ in.read(b,sizeof(b)); std::streamsize n = in.gcount(); if(n > 0) seen.append(b,(size_t)n); if(!in) break; }
 				std::string path; { simk::TsanIgnore ign; path = AW->save_dir + "/s" + std::to_string(AW->saved++); }
+				/* a target that cannot take a single byte (the disk is full): save_to() has to say so - an application that is told "saved" deletes its copy */
+				if(f->size() % 5 == 3){ bool refused = false; try { f->save_to("/dev/full"); } catch(std::exception const &){ refused = true; } simk::TsanIgnore ign; AW->full_disk_saves++; if(!refused && AW->full_disk_lie.empty()) AW->full_disk_lie = "file::save_to(\"/dev/full\") of an upload of " + std::to_string(f->size()) + " bytes returned normally although not one byte could be written"; }
 				bool threw = false; try { f->save_to(path); } catch(std::exception const &){ threw = true; }
 				std::string back; { std::ifstream sf(path.c_str(),std::ios::binary); std::ostringstream o2; o2 << sf.rdbuf(); back = o2.str(); } ::unlink(path.c_str());
 				d = threw ? std::string("save_to threw") : back; if(!threw && seen != back) d = "saved file differs from what the application had read: " + std::to_string(back.size()) + " bytes saved, " + std::to_string(seen.size()) + " read"; }
@@ -829,6 +831,8 @@ struct E1 : Engine {
 		if(res.ok) for(auto &cl:clients) for(auto &e:cl->ex){ if(!e.is_writer || !e.done || e.aborted || e.tag.empty()) continue; int is = aw.flush_issued.count(e.tag) ? aw.flush_issued[e.tag] : 0, dn = aw.flush_done.count(e.tag) ? aw.flush_done[e.tag] : 0, ab = aw.flush_aborted.count(e.tag) ? aw.flush_aborted[e.tag] : 0;
 			if(ab || dn != is){ res.fail("async-flush-handler-miscounted","request " + e.tag + ": the application called async_flush_output " + std::to_string(is) + " times; its handler ran " + std::to_string(dn) + " times with operation_completed and " + std::to_string(ab) + " times with operation_aborted although the peer read the whole response"); break; } }
 		res.counters["async_flush_output_calls"] = aw.async_flushes; res.counters["responses_continued_on_a_later_event"] = aw.deferred_continuations;
+		if(res.ok && !aw.full_disk_lie.empty()) res.fail("save-to-full-disk-reported-success",aw.full_disk_lie);
+		res.counters["saves_to_a_full_disk"] = aw.full_disk_saves;
 		if(res.ok && !aw.exception.empty()) res.fail("exception-escaped",aw.exception);
 		res.counters["raw_mode_responses"] = n_raw; res.counters["client_aborts_mid_response"] = n_aborted; res.counters["filter_on_error_calls"] = n_on_error; res.counters["content_filter_requests"] = n_filtered; res.counters["filter_reads_parts"] = n_filter_reads; res.counters["requests_with_own_limits"] = n_xlimit; res.counters["forwarded_requests"] = n_forwarded; res.counters["remote_addr_from_proxy_header"] = n_proxy_addr; res.counters["clock_stepped_back_mid_request"] = clock_was_stepped ? 1 : 0; res.counters["handler_exceptions_answered_500"] = n_thrown; res.counters["uploads_refused_by_abort_upload"] = n_abort_answers; res.counters["runs_with_limits_of_2g_and_more"] = huge_kb ? 1 : 0; res.counters["host_mounted_app_requests"] = n_host_app; res.counters["accept_emfile"] = (long long)simk::stats().accept_emfile; res.counters["filters_installed"] = aw.filters_installed; res.counters["over_limit_413"] = n_over_limit; res.counters["gzip_announced_empty_body"] = n_gzip_empty; res.counters["malformed_exchanges"] = n_bad; res.counters["malformed_refused_as_required"] = n_bad_refused; res.counters["page_cache_hits"] = n_cache_hits; res.counters["exchanges"] = n_ex; res.counters["multi_segment_requests"] = n_multi_seg; res.counters["requests_with_body"] = n_body; res.counters["keepalive_followups"] = n_keepalive_followups; res.counters["writer_responses"] = n_writer; res.counters["gzip_responses"] = n_gzip; res.counters["chunked_responses"] = n_chunked;
 		{ long long np = 0, nr = 0; for(auto &cl:clients){ np += cl->n_pauses; nr += cl->n_read_pauses; } res.counters["slow_peer_pauses"] = np; res.counters["slow_reader_pauses"] = nr; }
